@@ -78,6 +78,20 @@ theorem acquire_recount_exact (cfg : Cfg) (s : St) (p : Proc) (f : Name)
     simp only [hc, hfd, ↓reduceIte, diskSum, bc_avail, upd_same, hnames, sumReq_append, sumReq]
     omega
 
+/-- one token object per (process, directory): asking again for the same named token, with the same or
+    another total (`CounterToken.create`, `connector.createtoken`, `xp.token`), changes nothing — no new
+    object, the total of the directory stays — so it is enabled for every live process, keeps the state
+    reachable and keeps both capacity statements.  (The check compares this with the real `create`: the
+    returned object must be the registered one, with its total, and the process must still have exactly
+    one token object on the directory.) -/
+theorem recreate_preserves_capacity (cfg : Cfg) (s : St) (r : Reachable cfg s) (p : Proc)
+    (hd : (s.procs p).dropped = false) :
+    let s' := (apply cfg s (.recreate p)).1
+    s' = s ∧ Reachable cfg s' ∧ diskSum cfg s' ≤ cfg.total ∧ sumReq cfg.req s'.active ≤ cfg.total := by
+  have en : enabled s (.recreate p) = true := by simp [enabled, hd]
+  have r' : Reachable cfg (apply cfg s (.recreate p)).1 := Reachable.step _ r en
+  exact ⟨rfl, r', disk_capacity cfg _ r', (running_capacity cfg _ r').2.2⟩
+
 /-! ### the hypotheses are satisfiable, the bound is reached, stale counters occur
     (`cfg2`, `evs2` are defined in `Proofs/FileTokens.lean`: total 2, two processes take one unit each,
     a third request does not fit) -/
@@ -89,5 +103,8 @@ example : (run cfg2 (init cfg2) evs2).active = [11, 10] := by decide +kernel
 example : (apply cfg2 (run cfg2 (init cfg2) (evs2.take 4)) (.acquireBegin 0 12)).2.ok = false := by decide +kernel
 /-- stale counter: after process 0 took its unit, process 1 still shows 2 of 2. -/
 example : ((run cfg2 (init cfg2) (evs2.take 2)).procs 1).avail = 2 := by decide +kernel
+/-- asking again in the middle of the run is allowed and changes nothing. -/
+example : enabled (run cfg2 (init cfg2) (evs2.take 2)) (.recreate 0) = true ∧
+    diskSum cfg2 (apply cfg2 (run cfg2 (init cfg2) (evs2.take 2)) (.recreate 0)).1 = 1 := by decide +kernel
 
 end XpmVerif.C08Files
